@@ -240,8 +240,24 @@ Definition sync_error (d : dealer) (callee req : N) (details : dict) (err : stri
       end
   end.
 
-Definition sync_yield (d : dealer) (callee req : N) (opts : dict) (args : list value) (kw : dict)
-  : dealer * list out :=
+(** the callee of a YIELD that uses passthru mode without having announced
+    it is aborted (Realm.handle ends its session) *)
+Definition yield_aborts (lookup : N -> option session) (d : dealer) (callee req : N) (opts : dict) : bool :=
+  match cget (d_invs d) (callee, req) with
+  | None => false
+  | Some inv =>
+      match cget (d_calls d) (inv_call inv) with
+      | None => false
+      | Some _ =>
+          ppt_active opts &&
+          match lookup callee with Some cs => negb (sess_feature cs "callee" f_ppt) | None => false end
+      end
+  end.
+
+Definition ppt_error_details : dict := [("error", vstr "<text>")].
+
+Definition sync_yield (lookup : N -> option session) (d : dealer) (callee req : N) (opts : dict)
+           (args : list value) (kw : dict) : dealer * list out :=
   let progress := opt_bool opts "progress" in
   let ikey := (callee, req) in
   match cget (d_invs d) ikey with
@@ -257,7 +273,20 @@ Definition sync_yield (d : dealer) (callee req : N) (opts : dict) (args : list v
       match cget (d_calls d1) cid with
       | None => (finish d1, [])
       | Some caller =>
-          (finish d1, [(caller, RResult (snd cid) (if progress then [("progress", VBool true)] else []) args kw)])
+          let base := if progress then [("progress", VBool true)] else [] in
+          let caller_err := if progress then []
+                            else [(caller, RError c_CALL (snd cid) ppt_error_details e_feature_not_supported [] [])] in
+          if ppt_active opts then
+            let callee_ok := match lookup callee with Some cs => sess_feature cs "callee" f_ppt | None => false end in
+            let caller_ok := match lookup caller with Some cs => sess_feature cs "caller" f_ppt | None => false end in
+            if negb callee_ok then
+              (finish d1, caller_err ++ [(callee, RAbort [("message", vstr "<text>")] e_protocol_violation)])
+            else if negb caller_ok then
+              (finish d1, (callee, RError c_YIELD req ppt_error_details e_feature_not_supported [] []) :: caller_err)
+            else
+              (finish d1, [(caller, RResult (snd cid) (ppt_into opts base) args kw)])
+          else
+            (finish d1, [(caller, RResult (snd cid) base args kw)])
       end
   end.
 
@@ -357,7 +386,13 @@ Definition call (cfg : config) (lookup : N -> option session) (now : N) (d : dea
                         if in_progress && negb (sess_feature callee "callee" f_prog_inv && sess_feature callee "callee" f_call_canceling) then
                           CallRefused d0 [(csid, RError c_CALL req [] e_feature_not_supported [] [])]
                         else
-                          let det0 := [("progress", VBool in_progress)] in
+                          if ppt_active opts && negb (sess_feature caller "caller" f_ppt) then
+                            CallAbort [(csid, RAbort [("message", vstr "<text>")] e_protocol_violation)]
+                          else if ppt_active opts && negb (sess_feature callee "callee" f_ppt) then
+                            CallRefused d0 [(csid, RError c_CALL req [] e_feature_not_supported [] [])]
+                          else
+                          let det0 := if ppt_active opts then ppt_into opts [("progress", VBool in_progress)]
+                                      else [("progress", VBool in_progress)] in
                           let disclose_me := opt_bool opts "disclose_me" in
                           if negb (reg_disclose r) && disclose_me && negb (c_disclose cfg) then
                             CallRefused d0 [(csid, RError c_CALL req [] e_disclose_me [] [])]
